@@ -73,6 +73,14 @@ func c19Name(f reflect.StructField) string {
 	return name
 }
 
+// names that look like parts of a query, and a value that holds its own type behind an interface
+type c19Dotted struct {
+	AB    int                `json:"a.b"`
+	A     struct{ B, C int } `json:"a"`
+	Brack int                `json:"[a]"`
+	X     interface{}
+}
+
 type c19RecHolder struct {
 	C GRec
 	P *GRec           `json:"p"`
@@ -186,6 +194,38 @@ func runC19(c *Ctx) {
 	ntypes := 600
 	if c.Thorough() {
 		ntypes = 12000
+	}
+	if !c.IsWorker() {
+		// directed: queries whose flattened spellings coincide must not share cached programs
+		dv := c19Dotted{AB: 3, Brack: 5}
+		dv.A.B, dv.A.C = 1, 2
+		dv.X = c19Dotted{AB: 6, X: 7}
+		type dq struct {
+			name string
+			q    []json.FieldQueryString
+			want string
+		}
+		for _, seq := range [][]dq{
+			{{"a:[B]", []json.FieldQueryString{json.BuildSubFieldQuery("a").Fields("B")}, `{"a":{"B":1}}`}, {"a.b", []json.FieldQueryString{"a.b"}, `{"a.b":3}`}, {"a:[B] again", []json.FieldQueryString{json.BuildSubFieldQuery("a").Fields("B")}, `{"a":{"B":1}}`}},
+			{{"a.b first", []json.FieldQueryString{"a.b"}, `{"a.b":3}`}, {"a:[B,C]", []json.FieldQueryString{json.BuildSubFieldQuery("a").Fields("B", "C")}, `{"a":{"B":1,"C":2}}`}},
+			{{"X:[a.b]", []json.FieldQueryString{json.BuildSubFieldQuery("X").Fields("a.b")}, `{"X":{"a.b":6}}`}, {"X:[X]", []json.FieldQueryString{json.BuildSubFieldQuery("X").Fields("X")}, `{"X":{"X":7}}`}, {"X", []json.FieldQueryString{"X"}, ""}},
+		} {
+			for _, d := range seq {
+				fq, err := json.BuildFieldQuery(d.q...)
+				if err != nil {
+					c.Oracle("directed/build", d.name, err.Error(), "builds", false, "")
+					continue
+				}
+				out, oerr, pan := c19Marshal(fq, dv)
+				want := d.want
+				if want == "" {
+					var wb []byte
+					wb, _, _ = c19Marshal(nil, struct{ X interface{} }{dv.X})
+					want = string(wb)
+				}
+				c.Oracle("directed/colliding-spellings", d.name, fmt.Sprintf("%s err=%v panic=%s", out, oerr, pan), want, pan == "" && oerr == nil && string(out) == want, "")
+			}
+		}
 	}
 	c.RunCases("queries", ntypes, func(c *Ctx, k int, rng *rand.Rand) {
 		g := &Gen{R: rng}
